@@ -188,6 +188,73 @@ def rule_release_needs_terminal(ctx, rule='C13.j'):
 
 
 
+
+def rule_refused_request_is_released(ctx, rule='C10.e'):
+    """C10.e  A request the lease hold queue refuses leaves nothing behind.  The hold queue is bounded by the
+    application's configuration (request_queue_size); put_nowait() on it raises QueueFull for the request that does not
+    fit, and that exception goes to the caller of request_response() / subscribe().  By then the requester is in the
+    stream table (request_response, request_stream and request_channel register before they send): unless the overflow
+    path gives the id back, the entry stays for the life of the connection and the id is never handed out again.
+    Every put_nowait() on a socket queue whose bound is not a constant sits in a `try` whose QueueFull handler calls
+    finish_stream(<the frame>.stream_id) and re-raises."""
+    rep = ctx.report
+    repo = ctx.repo
+    base = ctx.slots.RSocketBase
+    bounded = {}
+    for k in [base] + repo.subclasses(base):
+        for f in k.methods.values():
+            for st in walk_local(f.node):
+                if isinstance(st, ast.Assign) and isinstance(st.value, ast.Call) and \
+                        ast.unparse(st.value.func).split('.')[-1] == 'Queue':
+                    size = st.value.args[0] if st.value.args else next(
+                        (kw.value for kw in st.value.keywords if kw.arg == 'maxsize'), None)
+                    if size is None or repo.try_const(f.module, size) is not None:
+                        continue
+                    for t in st.targets:
+                        if isinstance(t, ast.Attribute) and isinstance(t.value, ast.Name) and t.value.id == 'self':
+                            bounded[t.attr] = (f, st)
+    if not bounded:
+        raise AnalysisError('%s: no socket queue bounded by configuration (the lease hold queue vanished)' % rule)
+    n = 0
+    for k in [base] + repo.subclasses(base):
+        for f in k.methods.values():
+            parents = {}
+            for x in ast.walk(f.node):
+                for c in ast.iter_child_nodes(x):
+                    parents[c] = x
+            for c in walk_local(f.node):
+                if not (isinstance(c, ast.Call) and isinstance(c.func, ast.Attribute) and c.func.attr == 'put_nowait' and
+                        isinstance(c.func.value, ast.Attribute) and c.func.value.attr in bounded and c.args):
+                    continue
+                n += 1
+                arg = ast.unparse(c.args[0])
+                ok, why = False, 'the overflow (QueueFull) is not handled here: the refused request stays registered'
+                x = c
+                while x in parents:
+                    p = parents[x]
+                    if isinstance(p, ast.Try) and x in p.body:
+                        for h in p.handlers:
+                            names = ast.unparse(h.type) if h.type is not None else 'BaseException'
+                            if not any(w in names for w in ('QueueFull', 'Exception', 'BaseException')):
+                                continue
+                            rel = [y for y in ast.walk(ast.Module(body=h.body, type_ignores=[]))
+                                   if isinstance(y, ast.Call) and isinstance(y.func, ast.Attribute) and
+                                   y.func.attr in ('finish_stream', '_finish_stream') and y.args and
+                                   ast.unparse(y.args[0]) == arg + '.stream_id']
+                            reraises = any(isinstance(y, ast.Raise) for y in h.body)
+                            if rel and reraises:
+                                ok, why = True, ''
+                            elif rel:
+                                why = 'the overflow handler releases the id but swallows the refusal'
+                            else:
+                                why = 'the overflow handler does not release %s.stream_id' % arg
+                    x = p
+                rep.add(rule, '%s / a request the hold queue refuses is released' % f.short, (f.file, c.lineno), ok,
+                        why or 'QueueFull -> finish_stream(%s.stream_id), re-raised' % arg)
+    rep.require(rule, 'put_nowait sites on the hold queue', n, 1)
+
+
+
 def _emits(m, h, p, cname):
     return any(c == cname and m.emit_class(h, c, cm) for c, cm, _ in m.emitted(p))
 
@@ -386,4 +453,4 @@ def rule_reactions(ctx):
     c01f(ctx)
 
 
-RULES = [('C10.a', rule_a), ('C10.b', rule_b), ('C10.c', rule_c), ('C05.a', rule_order), ('C03.c', rule_d), ('C10.d', rule_e), ('C10.a', rule_no_subscriber), ('C06.e', rule_small_publishers), ('C01.h', rule_adapter_cancellation), ('C05.b', rule_queue_only_drained_by_the_sender), ('C01.f', rule_reactions), ('C13.j', rule_release_needs_terminal)]
+RULES = [('C10.a', rule_a), ('C10.b', rule_b), ('C10.c', rule_c), ('C05.a', rule_order), ('C03.c', rule_d), ('C10.d', rule_e), ('C10.a', rule_no_subscriber), ('C06.e', rule_small_publishers), ('C01.h', rule_adapter_cancellation), ('C05.b', rule_queue_only_drained_by_the_sender), ('C01.f', rule_reactions), ('C13.j', rule_release_needs_terminal), ('C10.e', rule_refused_request_is_released)]
